@@ -101,9 +101,14 @@ func (c *Ctx) Fork(n int, bin string, timeout time.Duration, extraEnv ...string)
 	if c.NShards > 0 {
 		return false
 	}
+	raceDone := make(chan struct{})
 	if bin == "" {
 		bin, _ = os.Executable()
+		raceDone = c.startRaceLane(timeout)
+	} else {
+		close(raceDone)
 	}
+	defer func() { <-raceDone }()
 	dir := mkScratch("shards-" + c.Prop)
 	defer os.RemoveAll(dir)
 	var wg sync.WaitGroup
